@@ -67,7 +67,7 @@ def callgraph(cx):
              reachable_functions=len(reach))
 
 
-@obligation("APPEND.prev_match", ["C01", "C05", "C20"], floor=1, kind="guard",
+@obligation("APPEND.prev_match", ["C01", "C03", "C05", "C06", "C15", "C20"], floor=1, kind="guard",
             why="the log-matching induction step: entries are accepted only onto a matching (prev index, prev term)")
 def prev_match(cx):
     n = 0
@@ -93,6 +93,12 @@ def prev_match(cx):
         def not_below_commit(l, idx=idx):
             return l[0] == "is" and l[2] is False and l[1][0] == "bin" and l[1][1] == "Lt" and l[1][2] == idx and l[1][3][0] == "field" and l[1][3][2] == "RaftLog.committed"
         require(cx, c, cx.site_key(c, "call:RaftLog::maybe_append"), "maybe_append(idx, ..) is reached only if !(idx < committed)", not_below_commit, kill=False)
+        # a follower that asked for a snapshot keeps its log frozen until the snapshot arrives: the snapshot is
+        # taken at the requested index and installed unconditionally, so anything appended (and acknowledged)
+        # after the request would be wiped although the leader may have counted the ack
+        def no_request_pending(l):
+            return l[0] == "in" and l[1][0] == "field" and l[1][2] == "RaftCore.pending_request_snapshot" and l[2] == frozenset([0])
+        require(cx, c, cx.site_key(c, "call:RaftLog::maybe_append:frozen"), "maybe_append is reached only while no snapshot request is pending", no_request_pending, kill=False)
 
 
 @obligation("APPEND.conflict_suffix", ["C05", "C14"], floor=2, kind="value shape",
